@@ -54,7 +54,7 @@ func (s *recSink) Write(p []byte) (int, error) {
 	s.buf = append(s.buf, p...)
 	return len(p), nil
 }
-func (s *recSink) Sync() error { s.syncs++; return nil }
+func (s *recSink) Sync() error { s.syncs++; s.writes += 0; _ = len(s.buf); return nil }
 
 type constClock struct{ ticks *hticks }
 
